@@ -1363,3 +1363,34 @@ Example C06_all_p_inhabited :
     /\ ReachC6p true (host_parse idna_clean) host_parse_opaque host_display u2
     /\ ser u2 = B "http://127.0.0.1/a/b/c%20d".
 Proof. exact reach6p_inhabited. Qed.
+
+(* 27. WHOLE-URL parser agreement for the removal call set_host(None) (Proofs/C06_SpliceHostNone.v): on a canonical
+   record with a host whose path starts with '/' but not with "//", a successful set_host(None) (special schemes
+   refuse with EmptyHost) returns the canonical record WITHOUT authority; its serialization is the old one with
+   "//userinfo@host:port" cut out (cut_host, read off the record) and Parser::parse_url on that text returns exactly
+   the setter's record.  The exclusions are the known classes: empty path at the end of the serialization (F-C06-5:
+   the path becomes "/"), empty path followed by a query / fragment (F-C04-1: debug assertion; a release build
+   returns an opaque-path URL), "//"-led path (F-C02-2: no "/." marker) - witnesses in C06_known_refuted. *)
+From RU Require Import Proofs.C06_SpliceHostNone.
+
+Theorem C06_splice_agreement_remove_host : forall dbg hp hpo hd u u', HostRT hp hpo hd -> Canon hp hpo hd u ->
+  has_host u = true -> byte_eqb (ser u) (path_start u) 47 = true -> path_starts_with_2slash u = false ->
+  set_host dbg hp hpo hd u None = Some (u', SOk) ->
+  Canon hp hpo hd u' /\ ser u' = cut_host u /\ parse_url dbg hp hpo hd None None (cut_host u) = POk u'.
+Proof. intros dbg hp hpo hd u u' HRT. exact (splice_agreement_remove_host dbg hp hpo hd HRT u u'). Qed.
+Check C06_splice_agreement_remove_host : forall dbg hp hpo hd u u', HostRT hp hpo hd -> Canon hp hpo hd u ->
+  has_host u = true -> byte_eqb (ser u) (path_start u) 47 = true -> path_starts_with_2slash u = false ->
+  set_host dbg hp hpo hd u None = Some (u', SOk) ->
+  Canon hp hpo hd u' /\ ser u' = cut_host u /\ parse_url dbg hp hpo hd None None (cut_host u) = POk u'.
+Print Assumptions C06_splice_agreement_remove_host.
+
+(* on "a://h:80/p?q#f" the cut text is "a:/p?q#f" *)
+Example C06_splice_agreement_remove_host_inhabited :
+  Canon ex_hp ex_hp ex_hd qx_u /\ has_host qx_u = true /\ byte_eqb (ser qx_u) (path_start qx_u) 47 = true
+  /\ path_starts_with_2slash qx_u = false
+  /\ (exists u', set_host true ex_hp ex_hp ex_hd qx_u None = Some (u', SOk) /\ ser u' = B "a:/p?q#f")
+  /\ cut_host qx_u = B "a:/p?q#f".
+Proof.
+  split; [exact (proj1 splice_canon_examples)|]. split; [vm_compute; reflexivity|]. split; [vm_compute; reflexivity|].
+  split; [vm_compute; reflexivity|]. split; [eexists; split; vm_compute; reflexivity | vm_compute; reflexivity].
+Qed.
